@@ -374,6 +374,9 @@ func init() {
 		return strings.TrimPrefix(m.t.String(), "*")
 	}
 	// typed events are rendered through reflection-driven JSON; events are outside every claim
+	// JSON-schema validation of service documents (gojsonschema: reflection): the documents a harness
+	// submits are taken to conform; the native replay of every cover witness runs the real validation
+	externals["mods.irisnet.org/modules/service/types.validateDocument"] = func(fr *frame, args []value) value { return iface{} }
 	externals["(*github.com/cosmos/cosmos-sdk/types.EventManager).EmitTypedEvent"] = func(fr *frame, args []value) value { return iface{} }
 	externals["(*github.com/cosmos/cosmos-sdk/types.EventManager).EmitTypedEvents"] = func(fr *frame, args []value) value { return iface{} }
 	// JSON renderings only feed events and logs
